@@ -193,6 +193,27 @@ def initStale (kind : Pid → Kind) (lp : Pid → Option Pid) (tries : Pid → N
 /-- `lock.clearLocks`: the lock directory is removed with everything in it -/
 def clearLocks (s : St) : St := { s with dir := false, files := [] }
 
+/-- SIGKILL (or a power cut) at any point: the process stops where it stands; whatever it had put into the lock
+directory stays there (a stale lock from then on) -/
+def crash (s : St) (i : Pid) : St := setPC s i .killed
+
+/-- events of a schedule with signals and kills -/
+inductive KEv
+  | call (i : Pid)
+  | intr (i : Pid)     -- SIGINT / SIGTERM (handled in the command body)
+  | kill (i : Pid)     -- SIGKILL
+  deriving DecidableEq, Repr
+
+def stepK (s : St) : KEv → St
+  | .call i => step s i
+  | .intr i => interrupt s i
+  | .kill i => crash s i
+
+def runK (s : St) (evs : List KEv) : St := evs.foldl stepK s
+
+@[simp] theorem runK_nil (s : St) : runK s [] = s := rfl
+@[simp] theorem runK_cons (s : St) (e : KEv) (r : List KEv) : runK s (e :: r) = runK (stepK s e) r := rfl
+
 /-! ### What a step looks like from outside (compared with the real calls by the correspondence) -/
 
 inductive Call
